@@ -35,6 +35,9 @@ pub enum Cmd {
     CreateDb { n: u32 },
     /// blank statement (only separators)
     Blank,
+    /// a statement the parser refuses (missing arguments, not a number where one is needed, an unknown word): its
+    /// error text is its entry
+    Malformed { text: String },
 }
 
 #[derive(Clone, Debug, Serialize, Deserialize)]
@@ -98,7 +101,17 @@ fn gen_one(rng: &mut Rng, ws: bool) -> Program {
             17 => Cmd::Keys,
             18 => Cmd::CreateDb { n: rng.range(1, 2) as u32 },
             19 | 20 => Cmd::Watch { key },
-            _ => Cmd::Blank,
+            _ => {
+                if rng.chance(1, 2) {
+                    Cmd::Blank
+                } else {
+                    const BAD: [&str; 16] = [
+                        "use-db {S}db", "use-db", "set", "set ka", "set-safe ka", "set-safe ka x v", "get", "create-db", "create-db {S}x", "increment", "resolve 1",
+                        "resolve x {S}db ka 1 v", "election", "auth", "zzz ka", "snapshot maybe",
+                    ];
+                    Cmd::Malformed { text: BAD[rng.below(BAD.len() as u64) as usize].to_string() }
+                }
+            }
         });
     }
     Program { cmds, trailing_semicolon: rng.chance(1, 2), spaces: rng.chance(1, 3), websocket: ws, earlier_requests: vec![] }
@@ -125,6 +138,7 @@ fn render(c: &Cmd, side: &str) -> String {
         Cmd::Watch { key } => format!("watch {}", key),
         Cmd::CreateDb { n } => format!("create-db {}new{} tk none", side, n),
         Cmd::Blank => String::new(),
+        Cmd::Malformed { text } => text.replace("{S}", side),
     }
 }
 
@@ -178,6 +192,7 @@ fn kind(c: &Cmd) -> &'static str {
         Cmd::SetSafeOk { .. } => "set-safe-ok",
         Cmd::SetSafeStale { .. } => "set-safe-stale",
         Cmd::Remove { .. } => "remove",
+        Cmd::Malformed { .. } => "malformed-bad",
         Cmd::IncOk => "increment",
         Cmd::IncNonNumeric => "increment-non-numeric",
         Cmd::Keys => "keys",
